@@ -659,6 +659,95 @@ class FnCheck:
         import copy
         return Sub().visit(copy.deepcopy([s for s in node.body if isinstance(s, ast.Return)][0].value))
 
+    # ---------------------------------------------------------------- normal form of the body
+    def normalised(self):
+        """the function body with (a) single-expression helpers inlined wherever a statement's expression calls them, (b) every
+        functools.reduce(f, seq, init) hoisted into the loop it stands for:  acc = init; for b in seq: acc = f(acc, b)   (same fold, same order),
+        (c) constant-count inner loops `for _ in range(K)` of assignments unrolled.  Purely syntactic, meaning-preserving rewrites."""
+        if getattr(self, '_norm', None) is not None:
+            return self._norm
+        import copy
+        counter = [0]
+
+        def is_reduce(c):
+            if not isinstance(c, ast.Call):
+                return False
+            f = c.func
+            return isinstance(c, ast.Call) and ((isinstance(f, ast.Attribute) and f.attr == 'reduce' and isinstance(f.value, ast.Name) and f.value.id == 'functools')
+                                                or (isinstance(f, ast.Name) and f.id == 'reduce')) and 2 <= len(c.args) <= 3 and not c.keywords
+
+        def deep_inline(e):
+            for _ in range(12):
+                hit = [n for n in ast.walk(e) if isinstance(n, ast.Call) and isinstance(n.func, ast.Name) and n.func.id in self.helpers
+                       and any(is_reduce(x) for x in ast.walk(self.helpers[n.func.id]))]
+                if not hit:
+                    return e
+                tgt = hit[0]
+                rep = self.inline(tgt)
+
+                class R(ast.NodeTransformer):
+                    def visit_Call(self_, n):
+                        return rep if n is tgt else self_.generic_visit(n)
+                e = R().visit(e) if e is not tgt else rep
+            return e
+
+        def hoist(e, pre):
+            e = deep_inline(e)
+            while True:
+                red = next((n for n in ast.walk(e) if isinstance(n, ast.Call) and is_reduce(n)), None)
+                if red is None:
+                    return e
+                if len(red.args) != 3:
+                    raise AnalysisError(f'{self.fname}: functools.reduce without an initial value')
+                fn_, seq, init = red.args
+                if not (isinstance(fn_, ast.Name) and fn_.id in self.helpers and len(self.helpers[fn_.id].args.args) == 2):
+                    raise AnalysisError(f'{self.fname}: functools.reduce with a step that is not a two-parameter single-expression helper')
+                counter[0] += 1
+                acc, b = f'__acc{counter[0]}', f'__b{counter[0]}'
+                pre.append(ast.Assign(targets=[ast.Name(id=acc, ctx=ast.Store())], value=hoist(init, pre), lineno=getattr(red, 'lineno', 0)))
+                loop = ast.For(target=ast.Name(id=b, ctx=ast.Store()), iter=seq,
+                               body=[ast.Assign(targets=[ast.Name(id=acc, ctx=ast.Store())],
+                                                value=ast.Call(func=ast.Name(id=fn_.id, ctx=ast.Load()), args=[ast.Name(id=acc, ctx=ast.Load()), ast.Name(id=b, ctx=ast.Load())], keywords=[]),
+                                                lineno=getattr(red, 'lineno', 0))], orelse=[], lineno=getattr(red, 'lineno', 0))
+                pre.append(loop)
+                name = ast.Name(id=acc, ctx=ast.Load())
+
+                class R(ast.NodeTransformer):
+                    def visit_Call(self_, n):
+                        return name if n is red else self_.generic_visit(n)
+                e = name if e is red else R().visit(e)
+
+        def unroll(body):
+            out = []
+            for s_ in body:
+                if isinstance(s_, ast.For) and isinstance(s_.iter, ast.Call) and isinstance(s_.iter.func, ast.Name) and s_.iter.func.id == 'range' \
+                        and len(s_.iter.args) == 1 and isinstance(s_.iter.args[0], ast.Constant) and isinstance(s_.iter.args[0].value, int) \
+                        and 0 <= s_.iter.args[0].value <= 16 and not s_.orelse and isinstance(s_.target, ast.Name) \
+                        and all(isinstance(x, (ast.Assign, ast.AugAssign)) for x in s_.body) \
+                        and not any(isinstance(n, ast.Name) and n.id == s_.target.id for x in s_.body for n in ast.walk(x)):
+                    out += [copy.deepcopy(x) for _ in range(s_.iter.args[0].value) for x in s_.body]
+                else:
+                    out.append(s_)
+            return out
+
+        def stmts(body):
+            out = []
+            for st in body:
+                st = copy.copy(st)
+                pre = []
+                if isinstance(st, (ast.Assign, ast.AugAssign, ast.AnnAssign, ast.Return)) and st.value is not None:
+                    st.value = hoist(copy.deepcopy(st.value), pre)
+                elif isinstance(st, ast.If):
+                    st.body, st.orelse = stmts(st.body), stmts(st.orelse)
+                elif isinstance(st, ast.For):
+                    st.body = unroll(st.body)
+                out += pre + [st]
+            return out
+        self._norm = stmts(self.fn.body)
+        for n in self._norm:
+            ast.fix_missing_locations(n)
+        return self._norm
+
     # ---------------------------------------------------------------- one path
     def run_path(self, P):
         ctx = dict(helpers=self.helpers, inline=self.inline, unit_seg=[])
@@ -672,7 +761,7 @@ class FnCheck:
         self.entered = False
         self.init_val = None
         try:
-            out = self.block(self.fn.body, P)
+            out = self.block(self.normalised(), P)
         except PathEnd:
             return None
         if out is None:
